@@ -123,7 +123,10 @@ func HostFor(p Policy) string {
 const skipRegexYAML = `
       skip_auth_regex:
         - ^/public/
-        - ^\/hook\/[a-z]+$`
+        - ^\/hook\/[a-z]+$
+        - \.(css|js|png)$
+        - ^/api/v[0-9]+/.*/status$
+        - healthz`
 
 // NewWorld builds the fixture.
 func NewWorld() (*World, error) {
@@ -319,9 +322,11 @@ func concreteReq(q Req, r *rand.Rand) (method, target string, hdr http.Header) {
 	default:
 		switch q.Path {
 		case "skip":
-			target = pick(r, "/public/", "/public/a/b?x=1", "/%70ublic/y", "/hook/abc", "/public/%2e%2e/secret", "/public/oauth2/auth")
+			target = pick(r, "/public/", "/public/a/b?x=1", "/%70ublic/y", "/hook/abc", "/public/%2e%2e/secret", "/public/oauth2/auth",
+				"/static/site.css", "/a/b/app.js?v=3", "/api/v2/items/status", "/x/healthz/y", "/healthz")
 		case "near":
-			target = pick(r, "/Public/x", "/a/public/", "/public", "/?/public/", "/private?next=/public/", "/hook/abc/", "/hook/ABC", "/xhook/abc", "/%2Fpublic/", "/secret#/public/", "/hook/", "/publicx")
+			target = pick(r, "/Public/x", "/a/public/", "/public", "/?/public/", "/private?next=/public/", "/hook/abc/", "/hook/ABC", "/xhook/abc", "/%2Fpublic/", "/secret#/public/", "/hook/", "/publicx",
+				"/admin/export?theme=site.css", "/api/v1/secrets?x=/status", "/admin?probe=healthz", "/site.css/secret", "/api/v1/status/secrets", "/admin?x=.js", "/data?file=a.png")
 		default:
 			target = pick(r, "/", "/secret/data", "/index.html?a=b", "/api/v1/items/7", "/oauth2/other", "/ping/x", "/robots.txtx")
 		}
